@@ -122,6 +122,19 @@ def layout_fields(proto, o):
         return [int(v) & 255] if v is not None else []
 
     lay = {"ip": [], "ip2": [], "req": [], "res": [], "renew": [], "gps": [], "body": [], "has_opt": False, "opt": [], "confirmed": False}
+    if proto == "RCP":
+        val = lambda x: int(x.value) if hasattr(x, "value") else (int(x) if x is not None else 0)
+        le4 = lambda x: list(int(x or 0).to_bytes(4, "little"))
+        n = o.opcode.name
+        return {"ct": val(getattr(o, "call_type", None)), "res": val(getattr(o, "result", None)), "tgt": le4(getattr(o, "target_id", 0)),
+                "snd": le4(getattr(o, "sender_id", 0)), "mode": val(getattr(o, "repeater_mode", None)), "status": val(getattr(o, "repeater_status", None)),
+                "svc": val(getattr(o, "repeater_service_type", None)), "bt": int(getattr(o, "broadcast_type", 0) or 0),
+                "iptgt": val(getattr(o, "radio_ip_id_target", None)),
+                "raw": list((o.broadcast_config_raw if n == "BroadcastStatusConfigurationRequest" else o.raw_value if n == "RadioIDAndRadioIPQueryReply"
+                             else o.raw_payload) or b""),
+                "fmt": val(getattr(o, "talker_alias_data_format", None)), "alias": list(getattr(o, "talker_alias_data", b"") or b""),
+                "settings": [[val(k), val(v)] for k, v in (getattr(o, "status_change_settings", None) or {}).items()],
+                "sct": val(getattr(o, "status_change_target", None)), "scv": int(getattr(o, "status_change_value", 0) or 0)}
     if proto == "RRS":
         lay["ip"] = ip(o.radio_ip)
         if o.opcode.name == "RadioRegistrationAnswer":
